@@ -99,3 +99,19 @@ def for_blocks(toks, var_re):
             i = j
         else:
             i += 1
+
+
+def guards_at(fl, pos):
+    """Control statements of a flattened template that enclose position pos: ['for m in methods', 'match x / when Some with (y)', ...]."""
+    stack = []  # [opening statement, current branch label]
+    for m in re.finditer(r"⟪(.*?)⟫", fl[:pos], re.S):
+        t = " ".join(m.group(1).replace("~", " ").split())
+        w = t.split()[0] if t else ""
+        if w in ("if", "for", "match", "macro", "block", "call", "filter"):
+            stack.append([t, None])
+        elif w.startswith("end") and w[3:] in ("if", "for", "match", "macro", "block", "call", "filter"):
+            if stack:
+                stack.pop()
+        elif w in ("else", "elif", "when") and stack:
+            stack[-1][1] = t
+    return ["%s / %s" % (a, b) if b else a for a, b in stack]
